@@ -1,4 +1,5 @@
 #!/bin/sh
+mkdir -p "$(dirname "$0")/../ocaml/gen"
 # regenerate _CoqProject and Makefile from the .v files present
 cd "$(dirname "$0")"
 { cat _CoqProject.head; find . -name '*.v' | sed 's|^\./||' | sort; } > _CoqProject
